@@ -1,1 +1,796 @@
-(* C15 proofs: in progress *)
+(* Proofs for Props/C15.v: host data converts to well-formed values whose type depends only on the Go shape. *)
+From Coq Require Import List String Ascii Bool Arith NArith ZArith Lia.
+From Yae Require Import Base.Sexp Model.Ty Model.Unify Model.Num Model.Lexer Model.Val Model.Render Model.ValSpec
+  Model.Conv Model.ConvSpec.
+From Yae Require Proofs.C17Proofs Proofs.C18Proofs.
+Import ListNotations.
+Local Open Scope nat_scope.
+Local Open Scope list_scope.
+
+(* ------------------------------------------------------------------------------------------------ *)
+(* Generic facts                                                                                     *)
+(* ------------------------------------------------------------------------------------------------ *)
+
+Lemma bind_some {X Y} (o : option X) (k : X -> option Y) y :
+  bind o k = Some y -> exists x, o = Some x /\ k x = Some y.
+Proof. destruct o as [x|]; simpl; intros H; [eauto|discriminate]. Qed.
+
+Lemma mapM_Forall2 {X Y} (g : X -> option Y) : forall l ys,
+  mapM g l = Some ys -> Forall2 (fun a y => g a = Some y) l ys.
+Proof.
+  induction l as [|a r IH]; simpl; intros ys H.
+  - inversion H; subst. constructor.
+  - apply bind_some in H. destruct H as [y [Hy H]].
+    apply bind_some in H. destruct H as [ys' [Hys H]]. inversion H; subst.
+    constructor; auto.
+Qed.
+
+Lemma mapM_cons {X Y} (g : X -> option Y) a r :
+  mapM g (a :: r) = (do y <- g a; do ys <- mapM g r; Some (y :: ys)).
+Proof. reflexivity. Qed.
+
+(* ------------------------------------------------------------------------------------------------ *)
+(* One unfolding of [val_of], with the nested pieces named                                           *)
+(* ------------------------------------------------------------------------------------------------ *)
+
+Section Pieces.
+  Variable ops : numops.
+
+  Definition conv_fields (f lv : nat) : list (string * string * gty) -> list gv -> option (list (string * val)) :=
+    fix go (fs : list (string * string * gty)) (vs : list gv) : option (list (string * val)) :=
+      match fs, vs with
+      | [], [] => Some []
+      | (gn, tag, ft) :: fr, x :: vr =>
+          let '(name, maybe) := parse_tag gn tag in
+          do fv <- (if is_nil x then
+                      do et <- type_of (S maxLevel + S maxLevel) ft 0; Some (VMaybe (TMaybe et) None)
+                    else
+                      do y <- val_of ops f ft x (S lv);
+                      Some (if maybe then VMaybe (TMaybe (val_type y)) (Some y) else y));
+          do rest <- go fr vr; Some ((name, fv) :: rest)
+      | _, _ => None
+      end.
+
+  Definition conv_seq (f lv : nat) (t1 e : gty) (elems : list gv) : option val :=
+    match elems with
+    | [] => do lt <- type_of (S maxLevel + S maxLevel) t1 lv;
+            match lt with TList _ => Some (VList lt []) | _ => None end
+    | _ =>
+        do xs <- mapM (fun x => val_of ops f e x (S lv)) elems;
+        match xs with
+        | x0 :: _ => if all_eq_type (val_type x0) xs then Some (VList (TList (val_type x0)) xs) else None
+        | [] => None
+        end
+    end.
+
+  Definition put_entries (kvs : list (val * val)) : option (list (list N * val)) :=
+    fold_left (fun acc kx => do a <- acc;
+                             match key_of ops (fst kx) with
+                             | (_, OVal kk) => Some (kput kk (snd kx) a)
+                             | _ => None end) kvs (Some []).
+
+  Definition conv_map (f lv : nat) (t1 kt vt : gty) (entries : list (gv * gv)) : option val :=
+    match entries with
+    | [] => do mt <- type_of (S maxLevel + S maxLevel) t1 lv;
+            match mt with TMap _ _ => Some (VMap mt []) | _ => None end
+    | _ =>
+        do kvs <- mapM (fun kv => do k <- val_of ops f kt (fst kv) (S lv); do x <- val_of ops f vt (snd kv) (S lv); Some (k, x)) entries;
+        match kvs with
+        | (k0, x0) :: _ =>
+            if all_eq_type (val_type k0) (map fst kvs) && all_eq_type (val_type x0) (map snd kvs) then
+              do mt <- mk_mapty (val_type k0) (val_type x0);
+              do ents <- put_entries kvs;
+              Some (VMap mt ents)
+            else None
+        | [] => None
+        end
+    end.
+
+  Definition conv_struct (f lv : nat) (fs : list (string * string * gty)) (vs : list gv) : option val :=
+    match fs with
+    | [] => Some (VObj (TObj []) [])
+    | _ =>
+        do xs <- conv_fields f lv fs vs;
+        do ot <- mk_obj (map (fun nv => (fst nv, val_type (snd nv))) xs);
+        Some (VObj ot (map snd xs))
+    end.
+
+  Definition conv_body (f lv : nat) (t1 : gty) (v1 : gv) : option val :=
+    match t1, v1 with
+    | GTime, HTime s n => Some (VTime s n)
+    | GBool, HBool b => Some (VBool b)
+    | GInt, HInt z => Some (VNum (of_Z ops z))
+    | GUint, HUint n => Some (VNum (of_Z ops (Z.of_N n)))
+    | GFloat, HFloat b => Some (VNum b)
+    | GString, HString s => Some (VStr s)
+    | (GSlice e | GArray e), (HSeq _ | HNil) =>
+        conv_seq f lv t1 e (match v1 with HSeq l => l | _ => [] end)
+    | GMap kt vt, (HMap _ | HNil) =>
+        conv_map f lv t1 kt vt (match v1 with HMap l => l | _ => [] end)
+    | GStruct fs, HStruct vs => conv_struct f lv fs vs
+    | _, _ => None
+    end.
+
+  Lemma val_of_S f t v lv :
+    val_of ops (S f) t v lv =
+    if Nat.ltb maxLevel lv then None
+    else if is_nil v then None
+    else match unwrap f t v with
+         | None => None
+         | Some (t1, v1) => conv_body f lv t1 v1
+         end.
+  Proof. reflexivity. Qed.
+End Pieces.
+
+Lemma type_of_S f t lv :
+  type_of (S f) t lv =
+  if Nat.ltb maxLevel lv then None else
+  match t with
+  | GPtr e => type_of f e lv
+  | GTime => Some TTime
+  | GBool => Some TBool
+  | GInt | GUint | GFloat => Some TNum
+  | GString => Some TStr
+  | GSlice e | GArray e => option_map TList (type_of f e (S lv))
+  | GMap k v => do kt <- type_of f k (S lv); do vt <- type_of f v (S lv); mk_mapty kt vt
+  | GStruct fs =>
+      do fts <- mapM (fun x => let '(gn, tag, ft) := x in
+                               let '(name, maybe) := parse_tag gn tag in
+                               do t' <- type_of f ft (S lv);
+                               Some (name, if maybe then TMaybe t' else t')) fs;
+      mk_obj fts
+  | GIface | GOther => None
+  end.
+Proof. reflexivity. Qed.
+
+Lemma unwrap_S f t v :
+  unwrap (S f) t v =
+  match t, v with
+  | GPtr e, HPtr x => unwrap f e x
+  | GPtr _, _ => None
+  | GIface, HIface dt x => unwrap f dt x
+  | GIface, _ => None
+  | _, _ => Some (t, v)
+  end.
+Proof. reflexivity. Qed.
+
+(* ------------------------------------------------------------------------------------------------ *)
+(* The computational statements                                                                      *)
+(* ------------------------------------------------------------------------------------------------ *)
+
+Lemma conv_fuel_S : conv_fuel = S 399.
+Proof. reflexivity. Qed.
+
+Lemma TypeOf_eq ops t v :
+  TypeOf ops t v = match ValOf ops t v with Some x => Some (val_type x) | None => type_of conv_fuel t 0 end.
+Proof. reflexivity. Qed.
+
+Lemma type_agrees : forall ops t v x T,
+  ValOf ops t v = Some x -> TypeOf ops t v = Some T -> T = val_type x.
+Proof.
+  intros ops t v x T Hv Ht. rewrite TypeOf_eq, Hv in Ht. congruence.
+Qed.
+
+Lemma depth_limit : forall ops f t v lv, (maxLevel < lv)%nat -> val_of ops f t v lv = None.
+Proof.
+  intros ops f t v lv H. destruct f as [|f]; [reflexivity|].
+  rewrite val_of_S. apply Nat.ltb_lt in H. rewrite H. reflexivity.
+Qed.
+
+Lemma ltb_max_0 : Nat.ltb maxLevel 0 = false.
+Proof. reflexivity. Qed.
+
+(* NB: never let the kernel or the unifier compare [val_of] at a concrete fuel with its unfolding: everything is
+   proved at a generic fuel and instantiated at the end. *)
+Lemma scalars_gen ops f z n b s bits sec ns :
+  val_of ops (S (S f)) GInt (HInt z) 0 = Some (VNum (of_Z ops z)) /\
+  val_of ops (S (S f)) GUint (HUint n) 0 = Some (VNum (of_Z ops (Z.of_N n))) /\
+  val_of ops (S (S f)) GBool (HBool b) 0 = Some (VBool b) /\
+  val_of ops (S (S f)) GString (HString s) 0 = Some (VStr s) /\
+  val_of ops (S (S f)) GFloat (HFloat bits) 0 = Some (VNum bits) /\
+  val_of ops (S (S f)) GTime (HTime sec ns) 0 = Some (VTime sec ns).
+Proof.
+  rewrite !val_of_S, ltb_max_0, !unwrap_S. repeat split; reflexivity.
+Qed.
+
+Lemma scalars : forall ops z n b s bits sec ns,
+  ValOf ops GInt (HInt z) = Some (VNum (of_Z ops z)) /\ ValOf ops GUint (HUint n) = Some (VNum (of_Z ops (Z.of_N n))) /\
+  ValOf ops GBool (HBool b) = Some (VBool b) /\ ValOf ops GString (HString s) = Some (VStr s) /\
+  ValOf ops GFloat (HFloat bits) = Some (VNum bits) /\ ValOf ops GTime (HTime sec ns) = Some (VTime sec ns).
+Proof.
+  intros. exact (scalars_gen ops 398 z n b s bits sec ns).
+Qed.
+
+Lemma errors_gen ops f t :
+  val_of ops (S (S f)) t HNil 0 = None /\ val_of ops (S (S f)) GOther HOther 0 = None /\
+  (forall e a b xa xb, val_of ops (S f) e a 1 = Some xa -> val_of ops (S f) e b 1 = Some xb ->
+                       ty_eqb (val_type xa) (val_type xb) = false ->
+                       val_of ops (S (S f)) (GSlice e) (HSeq [a; b]) 0 = None).
+Proof.
+  rewrite !val_of_S, ltb_max_0, !unwrap_S.
+  split; [reflexivity|]. split; [reflexivity|].
+  intros e a b xa xb Ha Hb Hne.
+  rewrite val_of_S, ltb_max_0, unwrap_S. cbn [is_nil conv_body conv_seq].
+  rewrite !mapM_cons, Ha. cbn [bind]. rewrite Hb. cbn [bind mapM].
+  unfold all_eq_type. cbn [forallb]. rewrite Hne.
+  destruct (ty_eqb (val_type xa) (val_type xa)); reflexivity.
+Qed.
+
+Lemma errors : forall ops t,
+  ValOf ops t HNil = None /\ ValOf ops GOther HOther = None /\
+  (forall e a b xa xb, val_of ops (conv_fuel - 1) e a 1 = Some xa -> val_of ops (conv_fuel - 1) e b 1 = Some xb ->
+                       ty_eqb (val_type xa) (val_type xb) = false -> ValOf ops (GSlice e) (HSeq [a; b]) = None).
+Proof.
+  intros ops t. exact (errors_gen ops 398 t).
+Qed.
+
+Lemma seq_order_gen ops f e vs xs t :
+  val_of ops (S (S f)) (GSlice e) (HSeq vs) 0 = Some (VList t xs) -> vs <> [] ->
+  Forall2 (fun v x => val_of ops (S f) e v 1 = Some x) vs xs.
+Proof.
+  intros H Hne.
+  rewrite val_of_S, ltb_max_0, unwrap_S in H. cbn [is_nil conv_body conv_seq] in H.
+  destruct vs as [|v0 vr]; [congruence|].
+  apply bind_some in H. destruct H as [ys [Hm H]].
+  destruct ys as [|x0 yr]; [discriminate|].
+  destruct (all_eq_type (val_type x0) (x0 :: yr)); [|discriminate].
+  inversion H; subst. apply mapM_Forall2 in Hm. exact Hm.
+Qed.
+
+Lemma seq_order : forall ops e vs xs t,
+  ValOf ops (GSlice e) (HSeq vs) = Some (VList t xs) -> vs <> [] ->
+  Forall2 (fun v x => val_of ops (conv_fuel - 1) e v 1 = Some x) vs xs.
+Proof.
+  intros ops e vs xs t. exact (seq_order_gen ops 398 e vs xs t).
+Qed.
+
+(* ------------------------------------------------------------------------------------------------ *)
+(* Types produced by [type_of] are well formed and variable-free                                     *)
+(* ------------------------------------------------------------------------------------------------ *)
+
+Definition good_ty (T : ty) : Prop := wf_ty T = true /\ slot_free T = true.
+
+Lemma mk_obj_some fts T : mk_obj fts = Some T -> nodupb (map fst fts) = true /\ T = TObj fts.
+Proof. unfold mk_obj. destruct (nodupb (map fst fts)); intros H; inversion H; auto. Qed.
+
+Lemma mk_mapty_some k v T : mk_mapty k v = Some T -> keyable k = true /\ T = TMap k v.
+Proof. unfold mk_mapty. destruct (keyable k); intros H; inversion H; auto. Qed.
+
+Lemma good_obj fts : nodupb (map fst fts) = true -> Forall (fun y => good_ty (snd y)) fts -> good_ty (TObj fts).
+Proof.
+  intros Hn Hf. unfold good_ty. cbn [wf_ty slot_free]. rewrite Hn. cbn [andb].
+  split; apply forallb_forall; intros y Hy; rewrite Forall_forall in Hf; apply (Hf y Hy).
+Qed.
+
+Lemma type_of_wf : forall f t lv T, type_of f t lv = Some T -> good_ty T.
+Proof.
+  induction f as [|f IH]; intros t lv T H; [discriminate|].
+  rewrite type_of_S in H. destruct (Nat.ltb maxLevel lv); [discriminate|].
+  destruct t as [| | | | | |e|e|e|k v|fs| |]; try discriminate;
+    try (inversion H; subst; split; reflexivity).
+  - eauto.
+  - destruct (type_of f e (S lv)) as [Te|] eqn:E; [|discriminate]. inversion H; subst.
+    apply IH in E. exact E.
+  - destruct (type_of f e (S lv)) as [Te|] eqn:E; [|discriminate]. inversion H; subst.
+    apply IH in E. exact E.
+  - apply bind_some in H. destruct H as [kt [Hk H]]. apply bind_some in H. destruct H as [vt [Hv H]].
+    apply mk_mapty_some in H. destruct H as [Hkey ->].
+    apply IH in Hk. apply IH in Hv. destruct Hk as [Hk1 Hk2]. destruct Hv as [Hv1 Hv2].
+    unfold good_ty. cbn [wf_ty slot_free]. rewrite Hkey, Hk1, Hk2, Hv1, Hv2. split; reflexivity.
+  - apply bind_some in H. destruct H as [fts [Hm H]].
+    apply mk_obj_some in H. destruct H as [Hn ->].
+    apply good_obj; [exact Hn|].
+    apply mapM_Forall2 in Hm.
+    clear Hn. induction Hm as [|[[gn tag] ft] y fr yr Hy Hr IHr]; [constructor|]. constructor; [|exact IHr].
+    destruct (parse_tag gn tag) as [name maybe].
+    apply bind_some in Hy. destruct Hy as [t' [Ht' Hy]]. inversion Hy; subst. cbn [snd].
+    apply IH in Ht'. destruct maybe; exact Ht'.
+Qed.
+
+(* ------------------------------------------------------------------------------------------------ *)
+(* Converted values are well formed                                                                  *)
+(* ------------------------------------------------------------------------------------------------ *)
+
+Definition good (x : val) : Prop := val_ok x = true /\ fun_free x = true.
+
+Lemma good_type x : good x -> good_ty (val_type x).
+Proof.
+  intros [Hok Hff]. unfold good_ty.
+  destruct x as [b|b|s|s n|t vs|t kvs|t vs|t o|t n l]; cbn [val_type]; try (split; reflexivity);
+    cbn [val_ok fun_free] in *; try discriminate;
+    repeat (apply andb_true_iff in Hok; destruct Hok as [Hok ?]); auto.
+Qed.
+
+Lemma good_refl x : good x -> ty_eqb (val_type x) (val_type x) = true.
+Proof. intros H. apply C17Proofs.eq_refl. apply (good_type x H). Qed.
+
+Lemma eqb_sym_good a b : good_ty a -> good_ty b -> ty_eqb a b = true -> ty_eqb b a = true.
+Proof. intros [Ha _] [Hb _]. apply C17Proofs.eqb_sym_imp; assumption. Qed.
+
+(* kput keeps keys distinct (as in C01Proofs, which is not imported here) *)
+Lemma kput_In {X} k (x : X) : forall l kv, In kv (kput k x l) -> kv = (k, x) \/ In kv l.
+Proof.
+  induction l as [|[k' x'] r IH]; simpl; intros kv H.
+  - destruct H as [E|[]]; auto.
+  - destruct (list_eqb k k').
+    + destruct H as [E|H]; auto.
+    + destruct H as [E|H]; [auto|]. destruct (IH _ H); auto.
+Qed.
+
+Lemma existsb_keys_kput {X} k0 k (x : X) l :
+  existsb (list_eqb k0) (map fst (kput k x l)) = true ->
+  list_eqb k0 k = true \/ existsb (list_eqb k0) (map fst l) = true.
+Proof.
+  intros H. apply existsb_exists in H. destruct H as [k1 [Hin E]].
+  apply in_map_iff in Hin. destruct Hin as [kv [E1 Hin]]. subst k1.
+  apply kput_In in Hin. destruct Hin as [->|Hin]; [left; exact E|].
+  right. apply existsb_exists. exists (fst kv). split; [apply in_map; exact Hin|exact E].
+Qed.
+
+Lemma kput_nodup {X} k (x : X) : forall l, nodup_keys (map fst l) = true -> nodup_keys (map fst (kput k x l)) = true.
+Proof.
+  induction l as [|[k' x'] r IH]; simpl; intros H; [reflexivity|].
+  apply andb_true_iff in H. destruct H as [H1 H2]. destruct (list_eqb k k') eqn:E.
+  - apply C18Proofs.list_eqb_eq in E. subst k'. simpl. rewrite H1, H2. reflexivity.
+  - simpl. rewrite (IH H2), andb_true_r. apply negb_true_iff. apply negb_true_iff in H1.
+    destruct (existsb (list_eqb k') (map fst (kput k x r))) eqn:Ex; [|reflexivity].
+    apply existsb_keys_kput in Ex. destruct Ex as [Ex|Ex]; [|congruence].
+    apply C18Proofs.list_eqb_eq in Ex. subst k'. rewrite C18Proofs.list_eqb_refl in E. discriminate.
+Qed.
+
+Section Good.
+  Variable ops : numops.
+  Variable f : nat.
+  Hypothesis IHf : forall t v lv x, val_of ops f t v lv = Some x -> good x.
+
+  Lemma conv_seq_good lv t1 e elems x : conv_seq ops f lv t1 e elems = Some x -> good x.
+  Proof.
+    unfold conv_seq. destruct elems as [|a r].
+    - intros H. apply bind_some in H. destruct H as [lt [Hlt H]].
+      apply type_of_wf in Hlt. destruct Hlt as [Hw Hs].
+      destruct lt; try discriminate. inversion H; subst.
+      split; [|reflexivity]. cbn [val_ok]. rewrite Hw, Hs. reflexivity.
+    - intros H. apply bind_some in H. destruct H as [xs [Hm H]].
+      destruct xs as [|x0 xr]; [discriminate|].
+      destruct (all_eq_type (val_type x0) (x0 :: xr)) eqn:Hall; [|discriminate].
+      inversion H; subst. apply mapM_Forall2 in Hm.
+      assert (Forall good (x0 :: xr)) as Hg.
+      { clear Hall. induction Hm as [|a' y r' yr Hy Hr IHr]; constructor; eauto. }
+      assert (good x0) as Hg0 by (inversion Hg; assumption).
+      destruct (good_type _ Hg0) as [Hw Hs].
+      unfold all_eq_type in Hall. rewrite forallb_forall in Hall. rewrite Forall_forall in Hg.
+      split.
+      + cbn [val_ok wf_ty slot_free]. rewrite Hw, Hs. cbn [andb].
+        apply forallb_forall. intros y Hy. destruct (Hg y Hy) as [Hoy Hfy]. rewrite Hoy. cbn [andb].
+        apply eqb_sym_good; [split; assumption|apply good_type; split; assumption|]. apply Hall; exact Hy.
+      + cbn [fun_free]. apply forallb_forall. intros y Hy. apply (Hg y Hy).
+  Qed.
+
+  Definition put_step := (fun (acc : option (list (list N * val))) (kx : val * val) =>
+                            do a <- acc;
+                            match key_of ops (fst kx) with
+                            | (_, OVal kk) => Some (kput kk (snd kx) a)
+                            | _ => None end).
+
+  Lemma put_step_none kvs : fold_left put_step kvs None = None.
+  Proof. induction kvs as [|kx r IH]; [reflexivity|]. exact IH. Qed.
+
+  Lemma put_entries_inv (P : val -> Prop) : forall kvs a ents,
+    fold_left put_step kvs (Some a) = Some ents ->
+    nodup_keys (map fst a) = true -> Forall (fun kv => P (snd kv)) a ->
+    Forall (fun kx => P (snd kx)) kvs ->
+    nodup_keys (map fst ents) = true /\ Forall (fun kv => P (snd kv)) ents.
+  Proof.
+    induction kvs as [|kx r IH]; intros a ents H Hn Ha Hk.
+    - simpl in H. inversion H; subst. auto.
+    - cbn [fold_left] in H. inversion Hk as [|? ? Hkx Hkr]; subst.
+      unfold put_step at 2 in H. cbn [bind] in H.
+      destruct (key_of ops (fst kx)) as [tr [kk|fk|fk]]; try (rewrite put_step_none in H; discriminate).
+      apply IH in H; auto.
+      + apply kput_nodup; exact Hn.
+      + apply Forall_forall. intros kv Hin. apply kput_In in Hin. destruct Hin as [->|Hin]; [exact Hkx|].
+        rewrite Forall_forall in Ha. apply Ha; exact Hin.
+  Qed.
+
+  Lemma conv_map_good lv t1 kt vt entries x : conv_map ops f lv t1 kt vt entries = Some x -> good x.
+  Proof.
+    unfold conv_map. destruct entries as [|a r].
+    - intros H. apply bind_some in H. destruct H as [mt [Hmt H]].
+      apply type_of_wf in Hmt. destruct Hmt as [Hw Hs].
+      destruct mt; try discriminate. inversion H; subst.
+      split; [|reflexivity]. cbn [val_ok]. rewrite Hw, Hs. reflexivity.
+    - intros H. apply bind_some in H. destruct H as [kvs [Hm H]].
+      destruct kvs as [|[k0 x0] kr]; [discriminate|].
+      destruct (all_eq_type (val_type k0) (map fst ((k0, x0) :: kr)) &&
+                all_eq_type (val_type x0) (map snd ((k0, x0) :: kr))) eqn:Hall; [|discriminate].
+      apply andb_true_iff in Hall. destruct Hall as [_ Hall].
+      apply bind_some in H. destruct H as [mt [Hmt H]]. apply bind_some in H. destruct H as [ents [He H]].
+      inversion H; subst. apply mk_mapty_some in Hmt. destruct Hmt as [Hkey ->].
+      apply mapM_Forall2 in Hm.
+      assert (Forall (fun kx => good (fst kx) /\ good (snd kx)) ((k0, x0) :: kr)) as Hg.
+      { clear Hall He. induction Hm as [|a' y r' yr Hy Hr IHr]; constructor; auto.
+        apply bind_some in Hy. destruct Hy as [k [Hk Hy]]. apply bind_some in Hy. destruct Hy as [x' [Hx Hy]].
+        inversion Hy; subst. cbn [fst snd]. split; eauto. }
+      assert (good k0 /\ good x0) as [Hgk Hgx] by (inversion Hg; assumption).
+      destruct (good_type _ Hgk) as [Hwk Hsk]. destruct (good_type _ Hgx) as [Hwx Hsx].
+      unfold all_eq_type in Hall. rewrite forallb_forall in Hall.
+      unfold put_entries in He. fold put_step in He.
+      apply (put_entries_inv (fun x => good x /\ ty_eqb (val_type x) (val_type x0) = true)) in He;
+        [|reflexivity|constructor|].
+      + destruct He as [Hn Hents]. rewrite Forall_forall in Hents. split.
+        * cbn [val_ok wf_ty slot_free]. rewrite Hkey, Hwk, Hsk, Hwx, Hsx, Hn. cbn [andb].
+          apply forallb_forall. intros kv Hin. destruct (Hents kv Hin) as [[Ho _] Ht]. rewrite Ho, Ht. reflexivity.
+        * cbn [fun_free]. apply forallb_forall. intros kv Hin. apply (Hents kv Hin).
+      + apply Forall_forall. intros kx Hin. rewrite Forall_forall in Hg. destruct (Hg kx Hin) as [_ Hgx'].
+        split; [exact Hgx'|].
+        apply eqb_sym_good; [split; assumption|apply good_type; exact Hgx'|].
+        apply Hall. apply in_map. exact Hin.
+  Qed.
+End Good.
+
+Definition obj_go : list (string * ty) -> list val -> bool :=
+  fix go (fs : list (string * ty)) (vs : list val) {struct vs} : bool :=
+    match fs, vs with
+    | (_, ft) :: fr, x :: r => val_ok x && ty_eqb (val_type x) ft && go fr r
+    | _, [] => true
+    | [], _ :: _ => false
+    end.
+
+Lemma val_ok_obj fs vs :
+  val_ok (VObj (TObj fs) vs) =
+  wf_ty (TObj fs) && slot_free (TObj fs) && (Nat.eqb (len fs) (len vs) && obj_go fs vs).
+Proof. reflexivity. Qed.
+
+Definition own_fields (xs : list (string * val)) : list (string * ty) :=
+  map (fun nv => (fst nv, val_type (snd nv))) xs.
+
+Lemma own_fields_ok xs : Forall (fun nv => good (snd nv)) xs ->
+  good_ty (TObj (own_fields xs)) -> good (VObj (TObj (own_fields xs)) (map snd xs)).
+Proof.
+  intros Hg [Hw Hs]. split.
+  - rewrite val_ok_obj, Hw, Hs. cbn [andb]. apply andb_true_iff. split.
+    + unfold own_fields, len. rewrite !map_length. apply Nat.eqb_refl.
+    + clear Hw Hs. induction Hg as [|[n x] r Hx Hr IH]; [reflexivity|].
+      cbn [own_fields map obj_go fst snd]. cbn [snd] in Hx. destruct Hx as [Hox Hfx].
+      rewrite Hox, (good_refl x (conj Hox Hfx)). exact IH.
+  - cbn [fun_free]. apply forallb_forall. intros y Hy. apply in_map_iff in Hy. destruct Hy as [nv [<- Hin]].
+    rewrite Forall_forall in Hg. apply (Hg nv Hin).
+Qed.
+
+Section Good2.
+  Variable ops : numops.
+  Variable f : nat.
+  Hypothesis IHf : forall t v lv x, val_of ops f t v lv = Some x -> good x.
+
+  Lemma conv_fields_good lv : forall fs vs xs,
+    conv_fields ops f lv fs vs = Some xs -> Forall (fun nv => good (snd nv)) xs.
+  Proof.
+    induction fs as [|[[gn tag] ft] fr IH]; intros [|v vr] xs H; cbn [conv_fields] in H; try discriminate.
+    - inversion H; subst. constructor.
+    - destruct (parse_tag gn tag) as [name maybe].
+      apply bind_some in H. destruct H as [fv [Hfv H]]. apply bind_some in H. destruct H as [rest [Hrest H]].
+      inversion H; subst. constructor; [|eapply IH; exact Hrest]. cbn [snd].
+      destruct (is_nil v).
+      + apply bind_some in Hfv. destruct Hfv as [et [Het Hfv]]. inversion Hfv; subst.
+        apply type_of_wf in Het. destruct Het as [Hw Hs]. split; [|reflexivity].
+        cbn [val_ok wf_ty slot_free]. rewrite Hw, Hs. reflexivity.
+      + apply bind_some in Hfv. destruct Hfv as [y [Hy Hfv]]. inversion Hfv; subst.
+        apply IHf in Hy. destruct maybe; [|exact Hy].
+        destruct (good_type _ Hy) as [Hw Hs]. destruct Hy as [Ho Hf]. split; [|exact Hf].
+        cbn [val_ok wf_ty slot_free]. rewrite Hw, Hs, Ho, (good_refl y (conj Ho Hf)). reflexivity.
+  Qed.
+
+  Lemma conv_struct_good lv fs vs x : conv_struct ops f lv fs vs = Some x -> good x.
+  Proof.
+    unfold conv_struct. destruct fs as [|fd fr].
+    - intros H. inversion H; subst. split; reflexivity.
+    - intros H. apply bind_some in H. destruct H as [xs [Hxs H]]. apply bind_some in H. destruct H as [ot [Hot H]].
+      inversion H; subst. apply mk_obj_some in Hot. destruct Hot as [Hn ->].
+      apply conv_fields_good in Hxs. fold (own_fields xs) in *.
+      apply own_fields_ok; [exact Hxs|].
+      apply good_obj; [exact Hn|].
+      unfold own_fields. apply Forall_forall. intros y Hy. apply in_map_iff in Hy. destruct Hy as [nv [<- Hin]].
+      cbn [snd]. apply good_type. rewrite Forall_forall in Hxs. apply (Hxs nv Hin).
+  Qed.
+
+  Lemma conv_body_good lv t1 v1 x : conv_body ops f lv t1 v1 = Some x -> good x.
+  Proof.
+    intros H.
+    destruct t1 as [| | | | | |e|e|e|k v|fs| |]; destruct v1; cbn [conv_body] in H; try discriminate H.
+    all: try (match type of H with Some _ = Some _ => injection H as <-; split; reflexivity end).
+    all: try (eapply conv_seq_good; [exact IHf|exact H]).
+    all: try (eapply conv_map_good; [exact IHf|exact H]).
+    eapply conv_struct_good; exact H.
+  Qed.
+End Good2.
+
+Lemma val_of_good ops : forall f t v lv x, val_of ops f t v lv = Some x -> good x.
+Proof.
+  induction f as [|f IH]; intros t v lv x H; [discriminate|].
+  rewrite val_of_S in H.
+  destruct (Nat.ltb maxLevel lv); [discriminate|]. destruct (is_nil v); [discriminate|].
+  destruct (unwrap f t v) as [[t1 v1]|]; [|discriminate].
+  eapply conv_body_good; eauto.
+Qed.
+
+Lemma valof_wf : forall ops t v x, ValOf ops t v = Some x -> val_ok x = true /\ fun_free x = true.
+Proof. intros ops t v x. unfold ValOf. change (val_ok x = true /\ fun_free x = true) with (good x). apply val_of_good. Qed.
+
+(* ------------------------------------------------------------------------------------------------ *)
+(* The type depends only on the Go shape                                                             *)
+(* ------------------------------------------------------------------------------------------------ *)
+
+Lemma Forall2_det {X Y} (g : X -> option Y) : forall l ys1 ys2,
+  Forall2 (fun a y => g a = Some y) l ys1 -> Forall2 (fun a y => g a = Some y) l ys2 -> ys1 = ys2.
+Proof.
+  induction l as [|a r IH]; intros ys1 ys2 H1 H2; inversion H1; inversion H2; subst; [reflexivity|].
+  f_equal; [congruence|auto].
+Qed.
+
+(* a successful [type_of] does not depend on the fuel nor on the level *)
+Lemma type_of_det : forall f1 t l1 T1 f2 l2 T2,
+  type_of f1 t l1 = Some T1 -> type_of f2 t l2 = Some T2 -> T1 = T2.
+Proof.
+  induction f1 as [|f1 IH]; intros t l1 T1 f2 l2 T2 H1 H2; [discriminate|].
+  destruct f2 as [|f2]; [discriminate|].
+  rewrite type_of_S in H1, H2.
+  destruct (Nat.ltb maxLevel l1); [discriminate|]. destruct (Nat.ltb maxLevel l2); [discriminate|].
+  destruct t as [| | | | | |e|e|e|k v|fs| |]; try discriminate; try congruence.
+  - eauto.
+  - destruct (type_of f1 e (S l1)) as [TA|] eqn:E1; [|discriminate].
+    destruct (type_of f2 e (S l2)) as [TB|] eqn:E2; [|discriminate].
+    cbn [option_map] in *. rewrite (IH _ _ _ _ _ _ E1 E2) in H1. congruence.
+  - destruct (type_of f1 e (S l1)) as [TA|] eqn:E1; [|discriminate].
+    destruct (type_of f2 e (S l2)) as [TB|] eqn:E2; [|discriminate].
+    cbn [option_map] in *. rewrite (IH _ _ _ _ _ _ E1 E2) in H1. congruence.
+  - apply bind_some in H1. destruct H1 as [k1 [Hk1 H1]]. apply bind_some in H1. destruct H1 as [v1 [Hv1 H1]].
+    apply bind_some in H2. destruct H2 as [k2 [Hk2 H2]]. apply bind_some in H2. destruct H2 as [v2 [Hv2 H2]].
+    rewrite (IH _ _ _ _ _ _ Hk1 Hk2), (IH _ _ _ _ _ _ Hv1 Hv2) in H1. congruence.
+  - apply bind_some in H1. destruct H1 as [fts1 [Hm1 H1]].
+    apply bind_some in H2. destruct H2 as [fts2 [Hm2 H2]].
+    assert (E : fts1 = fts2); [|subst; congruence].
+    clear H1 H2. revert fts1 fts2 Hm1 Hm2.
+    induction fs as [|[[gn tag] ft] fr IHfs]; intros fts1 fts2 Hm1 Hm2.
+    + simpl in Hm1, Hm2. congruence.
+    + rewrite mapM_cons in Hm1, Hm2. destruct (parse_tag gn tag) as [name maybe].
+      apply bind_some in Hm1. destruct Hm1 as [y1 [Hy1 Hm1]]. apply bind_some in Hm1. destruct Hm1 as [r1 [Hr1 Hm1]].
+      apply bind_some in Hm2. destruct Hm2 as [y2 [Hy2 Hm2]]. apply bind_some in Hm2. destruct Hm2 as [r2 [Hr2 Hm2]].
+      apply bind_some in Hy1. destruct Hy1 as [t1 [Ht1 Hy1]].
+      apply bind_some in Hy2. destruct Hy2 as [t2 [Ht2 Hy2]].
+      rewrite (IH _ _ _ _ _ _ Ht1 Ht2) in Hy1. rewrite (IHfs _ _ Hr1 Hr2) in Hm1. congruence.
+Qed.
+
+Lemma shape_stable_S g t v d :
+  shape_stable (S g) t v d =
+  match t, v with
+  | _, HNil => d && match t with GPtr _ | GSlice _ | GMap _ _ => true | _ => false end
+  | GBool, HBool _ | GInt, HInt _ | GUint, HUint _ | GFloat, HFloat _ | GString, HString _ | GTime, HTime _ _ => true
+  | GPtr e, HPtr x => shape_stable g e x false
+  | (GSlice e | GArray e), HSeq vs => forallb (fun x => shape_stable g e x false) vs
+  | GMap k e, HMap kvs => forallb (fun kx => shape_stable g k (fst kx) false && shape_stable g e (snd kx) false) kvs
+  | GStruct fs, HStruct vs =>
+      Nat.eqb (len fs) (len vs) &&
+      forallb (fun fx => let '(gn, tag, ft) := fst fx in shape_stable g ft (snd fx) (snd (parse_tag gn tag))) (combine fs vs)
+  | _, _ => false
+  end.
+Proof. reflexivity. Qed.
+
+Lemma shape_stable_nonnil g t v d d' : is_nil v = false -> shape_stable g t v d = shape_stable g t v d'.
+Proof.
+  intros Hn. destruct g as [|g]; [reflexivity|]. rewrite !shape_stable_S.
+  destruct v; try discriminate Hn; destruct t; reflexivity.
+Qed.
+
+Lemma shape_stable_nil g t d : shape_stable g t HNil d = true -> d = true.
+Proof.
+  destruct g as [|g]; [discriminate|]. rewrite shape_stable_S. intros H.
+  destruct d; [reflexivity|]. destruct t; discriminate H.
+Qed.
+
+Lemma unwrap_shape : forall f t v t1 v1, unwrap f t v = Some (t1, v1) -> iface_free t = true ->
+  forall g, shape_stable g t v false = true -> forall h l T, type_of h t l = Some T ->
+  iface_free t1 = true /\ (exists g', shape_stable g' t1 v1 false = true) /\ (exists h', type_of h' t1 l = Some T).
+Proof.
+  induction f as [|f IH]; intros t v t1 v1 H Hi g Hs h l T Ht; [discriminate|].
+  rewrite unwrap_S in H.
+  destruct t as [| | | | | |e|e|e|k w|fs| |]; try discriminate Hi;
+    try (inversion H; subst; split; [exact Hi|split; eauto]).
+  destruct v; try discriminate H.
+  destruct g as [|g]; [discriminate|]. rewrite shape_stable_S in Hs.
+  destruct h as [|h]; [discriminate|]. rewrite type_of_S in Ht.
+  destruct (Nat.ltb maxLevel l); [discriminate|].
+  eapply IH; eauto.
+Qed.
+
+Definition field_rel (a b : string * ty) : Prop := fst a = fst b /\ ty_eqb (snd a) (snd b) = true.
+
+Lemma Forall2_In_l {X Y} (R : X -> Y -> Prop) : forall l1 l2 a,
+  Forall2 R l1 l2 -> In a l1 -> exists b, In b l2 /\ R a b.
+Proof.
+  induction 1 as [|x y r1 r2 Hxy Hr IH]; intros Hin; [contradiction|].
+  destruct Hin as [<-|Hin]; [exists y; split; [left; reflexivity|exact Hxy]|].
+  destruct (IH Hin) as [b [Hb Hab]]. exists b. split; [right; exact Hb|exact Hab].
+Qed.
+
+Lemma Forall2_len {X Y} (R : X -> Y -> Prop) l1 l2 : Forall2 R l1 l2 -> List.length l1 = List.length l2.
+Proof. induction 1; simpl; congruence. Qed.
+
+Lemma obj_eqb_pointwise f1 f2 :
+  Forall2 field_rel f1 f2 -> nodupb (map fst f2) = true -> ty_eqb (TObj f1) (TObj f2) = true.
+Proof.
+  intros HF Hn. apply C17Proofs.ty_eqb_obj_spec. split; [eapply Forall2_len; exact HF|].
+  intros n t Hin. destruct (Forall2_In_l _ _ _ _ HF Hin) as [[n' t'] [Hb [E1 E2]]].
+  cbn [fst snd] in *. subst n'. exists t'. split; [|exact E2].
+  apply C17Proofs.In_assoc; [apply C17Proofs.nodupb_NoDup; exact Hn|exact Hb].
+Qed.
+
+Definition field_ty (h l : nat) (x : string * string * gty) : option (string * ty) :=
+  let '(gn, tag, ft) := x in
+  let '(name, maybe) := parse_tag gn tag in
+  do t' <- type_of h ft (S l);
+  Some (name, if maybe then TMaybe t' else t').
+
+Section Shape.
+  Variable ops : numops.
+  Variable f : nat.
+  Hypothesis IHf : forall t v lv x, val_of ops f t v lv = Some x -> iface_free t = true ->
+    forall g, shape_stable g t v false = true -> forall h l T, type_of h t l = Some T ->
+    ty_eqb (val_type x) T = true.
+
+  Lemma conv_seq_shape lv t1 e elems x h l T :
+    conv_seq ops f lv t1 e elems = Some x -> t1 = GSlice e \/ t1 = GArray e -> iface_free e = true ->
+    (forall a, In a elems -> exists g, shape_stable g e a false = true) ->
+    type_of h t1 l = Some T -> ty_eqb (val_type x) T = true.
+  Proof.
+    unfold conv_seq. intros H Ht1 Hi Hs HT. destruct elems as [|a r].
+    - apply bind_some in H. destruct H as [lt [Hlt H]].
+      destruct lt; try discriminate. inversion H; subst x. cbn [val_type].
+      rewrite (type_of_det _ _ _ _ _ _ _ HT Hlt). apply C17Proofs.eq_refl. apply (type_of_wf _ _ _ _ Hlt).
+    - apply bind_some in H. destruct H as [xs [Hm H]].
+      destruct xs as [|x0 xr]; [discriminate|].
+      destruct (all_eq_type (val_type x0) (x0 :: xr)); [|discriminate].
+      inversion H; subst x. cbn [val_type].
+      rewrite mapM_cons in Hm. apply bind_some in Hm. destruct Hm as [y [Hy Hm]].
+      apply bind_some in Hm. destruct Hm as [ys [_ Hm]]. inversion Hm; subst y ys.
+      destruct (Hs a (or_introl Logic.eq_refl)) as [g Hg].
+      destruct h as [|h]; [discriminate|]. rewrite type_of_S in HT.
+      destruct (Nat.ltb maxLevel l); [discriminate|].
+      assert (option_map TList (type_of h e (S l)) = Some T) as HT' by (destruct Ht1; subst t1; exact HT).
+      destruct (type_of h e (S l)) as [Te|] eqn:ETe; [|discriminate]. inversion HT'; subst T.
+      cbn [ty_eqb]. eapply IHf; eauto.
+  Qed.
+
+  Lemma conv_map_shape lv kt vt entries x h l T :
+    conv_map ops f lv (GMap kt vt) kt vt entries = Some x -> iface_free kt = true -> iface_free vt = true ->
+    (forall kv, In kv entries -> exists g, shape_stable g kt (fst kv) false = true /\ shape_stable g vt (snd kv) false = true) ->
+    type_of h (GMap kt vt) l = Some T -> ty_eqb (val_type x) T = true.
+  Proof.
+    unfold conv_map. intros H Hik Hiv Hs HT. destruct entries as [|a r].
+    - apply bind_some in H. destruct H as [mt [Hmt H]].
+      destruct mt; try discriminate. inversion H; subst x. cbn [val_type].
+      rewrite (type_of_det _ _ _ _ _ _ _ HT Hmt). apply C17Proofs.eq_refl. apply (type_of_wf _ _ _ _ Hmt).
+    - apply bind_some in H. destruct H as [kvs [Hm H]].
+      destruct kvs as [|[k0 x0] kr]; [discriminate|].
+      destruct (all_eq_type (val_type k0) (map fst ((k0, x0) :: kr)) &&
+                all_eq_type (val_type x0) (map snd ((k0, x0) :: kr))); [|discriminate].
+      apply bind_some in H. destruct H as [mt [Hmt H]]. apply bind_some in H. destruct H as [ents [_ H]].
+      inversion H; subst x. cbn [val_type]. apply mk_mapty_some in Hmt. destruct Hmt as [_ ->].
+      rewrite mapM_cons in Hm. apply bind_some in Hm. destruct Hm as [y [Hy Hm]].
+      apply bind_some in Hm. destruct Hm as [ys [_ Hm]]. inversion Hm; subst y ys.
+      apply bind_some in Hy. destruct Hy as [k [Hk Hy]]. apply bind_some in Hy. destruct Hy as [x' [Hx Hy]].
+      inversion Hy; subst k x'.
+      destruct (Hs a (or_introl Logic.eq_refl)) as [g [Hgk Hgv]].
+      destruct h as [|h]; [discriminate|]. rewrite type_of_S in HT.
+      destruct (Nat.ltb maxLevel l); [discriminate|].
+      apply bind_some in HT. destruct HT as [Tk [HTk HT]]. apply bind_some in HT. destruct HT as [Tv [HTv HT]].
+      apply mk_mapty_some in HT. destruct HT as [_ ->].
+      cbn [ty_eqb]. apply andb_true_iff. split; eapply IHf; eauto.
+  Qed.
+
+  Lemma conv_fields_shape lv g h l : forall fs vs xs fts,
+    conv_fields ops f lv fs vs = Some xs ->
+    forallb (fun fd => iface_free (snd fd)) fs = true ->
+    forallb (fun fx => let '(gn, tag, ft) := fst fx in shape_stable g ft (snd fx) (snd (parse_tag gn tag))) (combine fs vs) = true ->
+    mapM (field_ty h l) fs = Some fts ->
+    Forall2 field_rel (own_fields xs) fts.
+  Proof.
+    induction fs as [|[[gn tag] ft] fr IH]; intros [|v vr] xs fts H Hi Hs HT; cbn [conv_fields] in H; try discriminate.
+    - inversion H; subst. simpl in HT. inversion HT; subst. constructor.
+    - rewrite mapM_cons in HT. cbn [field_ty] in HT. cbn [combine forallb fst snd] in Hs, Hi.
+      destruct (parse_tag gn tag) as [name maybe]. cbn [snd] in Hs.
+      apply andb_true_iff in Hs. destruct Hs as [Hs1 Hs2]. apply andb_true_iff in Hi. destruct Hi as [Hi1 Hi2].
+      apply bind_some in H. destruct H as [fv [Hfv H]]. apply bind_some in H. destruct H as [rest [Hrest H]].
+      inversion H; subst xs.
+      apply bind_some in HT. destruct HT as [y [Hy HT]]. apply bind_some in HT. destruct HT as [ftr [Hftr HT]].
+      inversion HT; subst fts.
+      apply bind_some in Hy. destruct Hy as [t' [Ht' Hy]]. inversion Hy; subst y.
+      cbn [own_fields map fst snd]. constructor; [|apply (IH vr rest ftr Hrest Hi2 Hs2 Hftr)].
+      split; [reflexivity|]. cbn [snd].
+      destruct (is_nil v) eqn:Hnil.
+      + destruct v; try discriminate Hnil. apply shape_stable_nil in Hs1. subst maybe.
+        apply bind_some in Hfv. destruct Hfv as [et [Het Hfv]]. inversion Hfv; subst fv. cbn [val_type ty_eqb].
+        rewrite (type_of_det _ _ _ _ _ _ _ Het Ht'). apply C17Proofs.eq_refl. apply (type_of_wf _ _ _ _ Ht').
+      + apply bind_some in Hfv. destruct Hfv as [y [Hy' Hfv]]. inversion Hfv; subst fv.
+        rewrite (shape_stable_nonnil g ft v maybe false Hnil) in Hs1.
+        assert (ty_eqb (val_type y) t' = true) as E by (eapply IHf; eauto).
+        destruct maybe; cbn [val_type ty_eqb]; exact E.
+  Qed.
+
+  Lemma conv_struct_shape lv fs vs x g h l T :
+    conv_struct ops f lv fs vs = Some x ->
+    forallb (fun fd => iface_free (snd fd)) fs = true ->
+    shape_stable g (GStruct fs) (HStruct vs) false = true ->
+    type_of h (GStruct fs) l = Some T -> ty_eqb (val_type x) T = true.
+  Proof.
+    intros H Hi Hs HT.
+    destruct h as [|h]; [discriminate|]. rewrite type_of_S in HT.
+    destruct (Nat.ltb maxLevel l); [discriminate|].
+    apply bind_some in HT. destruct HT as [fts [Hfts HT]]. apply mk_obj_some in HT. destruct HT as [Hn ->].
+    unfold conv_struct in H. destruct fs as [|fd fr].
+    - inversion H; subst x. simpl in Hfts. inversion Hfts; subst fts. reflexivity.
+    - apply bind_some in H. destruct H as [xs [Hxs H]]. apply bind_some in H. destruct H as [ot [Hot H]].
+      inversion H; subst x. cbn [val_type]. apply mk_obj_some in Hot. destruct Hot as [_ ->].
+      destruct g as [|g]; [discriminate|]. rewrite shape_stable_S in Hs.
+      apply andb_true_iff in Hs. destruct Hs as [_ Hs].
+      apply obj_eqb_pointwise; [|exact Hn].
+      exact (conv_fields_shape lv g h l _ _ _ _ Hxs Hi Hs Hfts).
+  Qed.
+End Shape.
+
+Lemma scalar_type h t l T R :
+  type_of h t l = Some T ->
+  match t with GBool => R = TBool | GInt | GUint | GFloat => R = TNum | GString => R = TStr | GTime => R = TTime
+             | _ => False end ->
+  ty_eqb R T = true.
+Proof.
+  intros HT HR. destruct h as [|h]; [discriminate|]. rewrite type_of_S in HT.
+  destruct (Nat.ltb maxLevel l); [discriminate|].
+  destruct t; try contradiction; inversion HT; subst; reflexivity.
+Qed.
+
+Lemma shape_gen ops : forall f t v lv x, val_of ops f t v lv = Some x -> iface_free t = true ->
+  forall g, shape_stable g t v false = true -> forall h l T, type_of h t l = Some T ->
+  ty_eqb (val_type x) T = true.
+Proof.
+  induction f as [|f IH]; intros t v lv x H Hi g Hs h l T HT; [discriminate|].
+  rewrite val_of_S in H.
+  destruct (Nat.ltb maxLevel lv); [discriminate|]. destruct (is_nil v); [discriminate|].
+  destruct (unwrap f t v) as [[t1 v1]|] eqn:Hu; [|discriminate].
+  destruct (unwrap_shape _ _ _ _ _ Hu Hi g Hs h l T HT) as [Hi1 [[g1 Hs1] [h1 HT1]]].
+  clear Hu Hi Hs HT t v g h.
+  destruct g1 as [|g1]; [discriminate|]. rewrite shape_stable_S in Hs1.
+  destruct t1 as [| | | | | |e|e|e|k w|fs| |]; destruct v1; cbn [conv_body] in H; try discriminate H;
+    try discriminate Hs1.
+  all: try (match type of H with Some _ = Some _ =>
+              injection H as <-; cbn [val_type]; eapply scalar_type; [exact HT1|reflexivity] end).
+  - (* slice *)
+    eapply (conv_seq_shape ops f IH); [exact H|left; reflexivity|exact Hi1| |exact HT1].
+    intros a Ha. exists g1. rewrite forallb_forall in Hs1. apply Hs1; exact Ha.
+  - (* array *)
+    eapply (conv_seq_shape ops f IH); [exact H|right; reflexivity|exact Hi1| |exact HT1].
+    intros a Ha. exists g1. rewrite forallb_forall in Hs1. apply Hs1; exact Ha.
+  - (* map *)
+    cbn [iface_free] in Hi1. apply andb_true_iff in Hi1. destruct Hi1 as [Hik Hiv].
+    eapply (conv_map_shape ops f IH); [exact H|exact Hik|exact Hiv| |exact HT1].
+    intros kv Hkv. exists g1. rewrite forallb_forall in Hs1. apply andb_true_iff. apply Hs1; exact Hkv.
+  - (* struct *)
+    eapply (conv_struct_shape ops f IH); [exact H|exact Hi1| |exact HT1].
+    rewrite shape_stable_S. exact Hs1.
+Qed.
+
+Lemma shape_only : forall ops t v x T,
+  iface_free t = true -> shape_stable conv_fuel t v false = true ->
+  ValOf ops t v = Some x -> type_of conv_fuel t 0 = Some T ->
+  ty_eqb (val_type x) T = true.
+Proof.
+  intros ops t v x T Hi Hs. unfold ValOf. generalize conv_fuel. intros n Hv HT.
+  exact (shape_gen ops _ _ _ _ _ Hv Hi _ Hs _ _ _ HT).
+Qed.
+
+Print Assumptions valof_wf.
+Print Assumptions type_agrees.
+Print Assumptions shape_only.
+Print Assumptions errors.
+Print Assumptions depth_limit.
+Print Assumptions scalars.
+Print Assumptions seq_order.
